@@ -1,7 +1,8 @@
 """Native replay for C18 (runs under /venv/bin/python against the REAL client, no z3).
 
 A fake Microsoft Graph document library (random folder trees, names that need URL quoting, 0..N items per
-folder, page sizes 1..N, optional fields missing) is served through the client's `request_func` hook.  Checked:
+folder, page sizes 1..N, optional fields missing, hidden children that are trimmed after paging -- so a page that is
+not the last may be short or empty and still carry a nextLink) is served through the client's `request_func` hook.  Checked:
 
 * list_all_files / list_files_filtered == an independent reference walk + reference filter (written from the
   property statement: instants as exact fractions, inclusive-after / exclusive-before, case-insensitive
@@ -146,8 +147,12 @@ def random_tree(rnd, max_depth=3, max_items=6):
                 if rnd.random() < 0.1:
                     extra["file"] = {}
                 ch = Node("file", rnd.choice(NAMES) if rnd.random() < 0.95 else None, nid() if rnd.random() < 0.95 else None, **extra)
-            else:
+            elif r < 0.965:
                 ch = Node("other", "Notebook", nid())
+            else:
+                for _ in range(rnd.randint(0, 2)):          # a run of hidden entries (trimmed server-side)
+                    folder.children.append(Node("hidden", "~hidden", nid()))
+                ch = Node("hidden", "~hidden", nid())
             folder.children.append(ch)
     root = Node("folder", "", "ROOT")
     build(0, root)
@@ -256,8 +261,10 @@ class FakeGraph:
         return 400, json.dumps({"error": {"code": "BadRequest", "message": "unrouted " + url}}).encode()
 
     def page(self, folder, start):
-        items = [c.item() for c in folder.children]
-        chunk = items[start:start + self.page_size]
+        # Graph pages first and trims afterwards: a `hidden` child occupies a slot of its page but is not served, so a page that
+        # is not the last one may come back with fewer entries than the page size -- or with none -- and still carry a nextLink
+        items = folder.children
+        chunk = [c.item() for c in items[start:start + self.page_size] if c.kind != "hidden"]
         body = {"value": chunk}
         if not chunk and self.omit_empty_value:
             body = {}
@@ -614,10 +621,12 @@ def crafted_tree():
             f.children.append(Node("file", fn, next(ids), createdDateTime=late if flip else early, lastModifiedDateTime=early if flip else late))
         f.children.extend(subs)
         return f
+    def hidden(n):
+        return [Node("hidden", "~hidden", next(ids)) for _ in range(n)]
     root = Node("folder", "", "ROOT")
-    root.children = [Node("file", "top.txt", "T0"),
+    root.children = [Node("file", "top.txt", "T0"), *hidden(3),
                      folder("Reports", ["r1.pdf", "r2.txt"], [folder("Drafts", ["draft.pdf"])]),
-                     folder("Reports 2024", ["q1.pdf", "q2.pdf"], [folder("Final", ["final.pdf"])]),
+                     *hidden(1), folder("Reports 2024", ["q1.pdf", "q2.pdf"], [*hidden(3), folder("Final", ["final.pdf"])]), *hidden(2),
                      folder("Docs", [], [folder("Q1", ["a.pdf"]), folder("Q10", ["b.pdf", "c.txt"]), folder("Q1 & Q2", ["d.pdf"])]),
                      folder("Archive", ["old.pdf"]),
                      # names with a literal percent escape next to the folder the escape decodes to
